@@ -388,6 +388,8 @@ func naiveURLEncodingInvalid(in []byte) bool {
 	return state != 0
 }
 
+func c15Stale(i int) string { return "left-by-an-earlier-match-" + strconv.Itoa(i) }
+
 // pmCapturesValid is a validity predicate rather than one expected answer: the matcher may or
 // may not report overlapping occurrences (undocumented). Required: TX.0 is the leftmost-longest
 // first hit; the captured texts are occurrences of listed phrases at strictly increasing start
@@ -569,8 +571,10 @@ func checkC15(c *C15Case) Result {
 	}
 	want, wantCaps, hasCaps := c15Expected(c)
 	tx.Capture = c.Capture
+	// TX.0-9 hold what an earlier capturing evaluation left there: a group of this pattern, taking part in the match or
+	// not, has to replace it with its own text (indexes beyond the pattern's groups are not claimed either way)
 	for i := 0; i <= 9; i++ {
-		tx.Variables().TX().Set(strconv.Itoa(i), []string{""})
+		tx.Variables().TX().Set(strconv.Itoa(i), []string{c15Stale(i)})
 	}
 	var got bool
 	if f := guard("@"+c.Op, func() { got = op.Evaluate(tx, string(c.Input)) }); f != nil {
@@ -590,11 +594,20 @@ func checkC15(c *C15Case) Result {
 			}
 			gotCaps = append(gotCaps, gotv)
 		}
+		if c.Op != "rx" {
+			for i := range gotCaps {
+				if gotCaps[i] == c15Stale(i) {
+					gotCaps[i] = "" // not stored
+				}
+			}
+		}
 		if c.Op == "rx" {
 			for i := 0; i <= 9; i++ {
 				exp := ""
 				if i < len(wantCaps) {
 					exp = wantCaps[i]
+				} else if gotCaps[i] == c15Stale(i) {
+					continue // beyond the groups of this pattern: left alone
 				}
 				if gotCaps[i] != exp {
 					res.Fail = failf("@rx %q on input %q with capture: TX.%d = %q, expected %q (all expected: %q)", c.Arg, c.Input, i, gotCaps[i], exp, wantCaps)
@@ -609,6 +622,16 @@ func checkC15(c *C15Case) Result {
 			res.Labels = append(res.Labels, "capture-10-groups")
 		}
 		res.Labels = append(res.Labels, "capture-checked")
+		if c.Op == "rx" && !patternNamesRawBytes(c.Arg) {
+			if ix := regexp.MustCompile("(?sm)" + c.Arg).FindStringSubmatchIndex(string(c.Input)); ix != nil {
+				for g := 1; g < len(ix)/2 && g <= 9; g++ {
+					if ix[2*g] < 0 {
+						res.Labels = append(res.Labels, "capture-group-outside-the-match")
+						break
+					}
+				}
+			}
+		}
 	}
 	res.Labels = append(res.Labels, "op:"+c.Op)
 	if c.PreFilter {
